@@ -130,7 +130,7 @@ class Cluster(object):
         - must have same time step and same magnitude
         """
         verbose = kwargs.get('verbose', 0)
-        steps = kwargs.get('steps', 10)
+        steps = int(kwargs.get('steps', 10))  # an unsigned NumPy count wraps in the slices with -steps
         set_step = kwargs.get('set_step', False)
         trim = kwargs.get('trim', True)
 
